@@ -279,6 +279,37 @@ func checkC14(r *Run) {
 			}
 		}
 	}
+	// URIs made of real-world words (beyond the byte bound): the registered parameter names and values in every position,
+	// with and without a user part
+	pm := []string{"user=phone", "USER=Phone", "user=ip", "transport=udp", "lr", "ttl=1", "method=INVITE", "maddr=1.2.3.4", "phone-context=x.example", "xuser=phone", "user=phones", "user="}
+	var plists []string
+	for i, a := range pm {
+		plists = append(plists, ";"+a)
+		for j, b := range pm {
+			if i != j && (i < 3 || j < 3) {
+				plists = append(plists, ";"+a+";"+b)
+			}
+		}
+	}
+	plists = append(plists, "")
+	for _, sch := range []string{"sip:", "sips:", "tel:", "SIP:"} {
+		for _, ui := range []string{"", "alice@", "+15551234567@", "u:p@", "+358-555;postd=pp22@"} {
+			for _, h := range []string{"h", "example.com", "+15551234567", "[::1]", "1.2.3.4"} {
+				for _, pt := range []string{"", ":5060"} {
+					for _, pl := range plists {
+						for _, hd := range []string{"", "?user=phone", "?a=1&user=phone"} {
+							vs, _ := evalC14([]byte(sch + ui + h + pt + pl + hd))
+							r.St.Evals++
+							r.St.Transitions++
+							for _, v := range vs {
+								r.Col.add(v)
+							}
+						}
+					}
+				}
+			}
+		}
+	}
 	// a few structured long URIs (beyond the byte bound)
 	for _, s := range []string{"sip:user;x=1?y:pass@host.example.com:5060;transport=udp;lr?a=1&b=2", "sips:[2001:db8::1]:5061;maddr=[::1]", "sip:u?h@[::1]", "sip:a;b:c;d@e"} {
 		vs, _ := evalC14([]byte(s))
